@@ -153,10 +153,11 @@ func (w *WorkerGrp) signalExit() {
 // localize hash to worker
 func (w *WorkerGrp) locHash(k Hashed2Int) int {
 	var hashNum = k.HashedInt()
+	// take the remainder first: negating math.MinInt overflows and stays negative
+	hashNum %= w.muxSize
 	if hashNum < 0 {
 		hashNum = -hashNum
 	}
-	hashNum %= w.muxSize
 	return hashNum
 }
 
